@@ -88,7 +88,9 @@ def expected(kind, step, ts, vs, prev, t):
 def run(kind, step, pubs, reqs, limit, loc, masked):
     """pubs: [(t_hours, value)], reqs: [(after how many publications, t_hours)]; returns list of results or failure"""
     grid = fm.UniformGrid((3, 2))  # 2x1 cells
-    mask = np.array([[False], [True]]) if masked else fm.Mask.NONE
+    # masked: False (plain) | True (one masked cell) | "valid" (a masked array in which nothing is masked)
+    allvalid = masked == "valid"
+    mask = (np.array([[False], [False]]) if allvalid else np.array([[False], [True]])) if masked else fm.Mask.NONE
     units = "m/s" if kind.startswith(("sum", "avg")) else "m"
     out = fm.Output("out", fm.Info(time=T0, grid=grid, units=units, mask=mask))
     ad = make(kind, step)
@@ -117,8 +119,10 @@ def run(kind, step, pubs, reqs, limit, loc, masked):
         r = inp.pull_data(T0 + t * H)
         m = r.magnitude
         val = float(np.asarray(m).reshape(-1)[0])
-        if masked and not (np.ma.isMaskedArray(m) and bool(np.ma.getmaskarray(m).reshape(-1)[1])):
+        if masked and not allvalid and not (np.ma.isMaskedArray(m) and bool(np.ma.getmaskarray(m).reshape(-1)[1])):
             return f"masked cell lost its mask at request t={t}"
+        if allvalid and np.ma.getmaskarray(m).any():
+            return f"all-valid masked payload came back with masked cells at request t={t}"
         res.append((val, str(r.units)))
         if loc is not None:
             pass
@@ -169,7 +173,7 @@ def gen_case(rng):
 
 def check_case(kind, step, pubs, reqs, loc):
     base = None
-    for masked in (False, True):
+    for masked in (False, True, "valid"):
         for limit, l in ((None, None), (0, loc)):
             try:
                 r = run(kind, step, pubs, reqs, limit, l, masked)
@@ -235,7 +239,7 @@ if __name__ == "__main__":
         import json
 
         print(json.dumps({"evaluations": runs * 4, "distinct_nontrivial": dist, "violations": [{"case": msg}] if ok else [],
-                          "rule": "random publication/request histories on Output >> time adapter >> Input, 9 adapter configurations, x {no limit, limit 0} x {plain, masked}; distinct = distinct (adapter, step, publications, requests)",
+                          "rule": "random publication/request histories on Output >> time adapter >> Input, 9 adapter configurations, x {no limit, limit 0} x {plain, masked, masked without masked cells}; distinct = distinct (adapter, step, publications, requests)",
                           "bound": "<= 7 publications, <= 8 requests, gaps {1,2,3,5,7} h"}))
     else:
         verdict(ok, msg)
